@@ -353,7 +353,24 @@ def check_r2(prop, tier, seed, spec):
         log("[%s] %s: build %.0fs, recorded %d events in %.1fs, validated by TLC in %d shard(s), %d rejected" % (prop, label, bdt, n, rdt, len(res), len(rej_lines)))
 
     path_cov = None
-    if spec.get("paths"):
+    if spec.get("paths") and spec["paths"].get("module") == "CodecTrace":
+        # the codec transcription (tla/algo/CodecOps.tla, explored exhaustively at small octets) evaluated at Q = 8 on the recorded calls
+        meta = os.path.join(wdir, "meta_paths")
+        env = dict(os.environ, TRACE=os.path.join(wdir, "trace_rel.ndjson"), STRIDE=str(spec["paths"].get(tier, 1)))
+        cmd = tlc_cmd(1, meta, ["-config", os.path.join(TLA, "CodecTrace.cfg"), os.path.join(TLA, "CodecTrace.tla")], heap="6g")
+        out, dt = run(cmd, cwd=TLA, env=env, timeout=1800, check=False)
+        shutil.rmtree(meta, ignore_errors=True)
+        m = re.search(r'<<"CODEC", "(.*)">>', out)
+        if not m:
+            raise ToolError("CodecTrace did not finish:\n" + out[-2000:])
+        branches = json.loads(m.group(1).replace('\\"', '"'))
+        drift = branches.pop("spec_drift", 0)
+        path_cov = dict(model="tla/algo/CodecOps.tla at Q=8 (tla/CodecTrace.tla)", events_evaluated=sum(branches.values()), spec_drift=drift,
+                        branches_of_the_transcription_taken=branches, wall=round(dt, 1))
+        log("[%s] codec transcription at Q=8: %d recorded calls re-evaluated, %d branch classes, %d SPEC-DRIFT" % (prop, sum(branches.values()), len(branches), drift))
+        g, d_ = parse_states(out)
+        totals["states"] += d_; totals["transitions"] += g
+    elif spec.get("paths"):
         # spec-side path labels: the R1 algorithm model evaluated at W = 64 on the recorded inputs
         meta = os.path.join(wdir, "meta_paths")
         env = dict(os.environ, TRACE=os.path.join(wdir, "trace_rel.ndjson"), STRIDE=str(spec["paths"].get(tier, 1)))
